@@ -20,7 +20,7 @@ def Sched.firstFail : Sched → Option IoKind
   | .chunk _ :: s => Sched.firstFail s
   | .intr :: s => Sched.firstFail s
 
-def isOk {ε α : Type} : Except ε α → Bool
+def rdIsOk {ε α : Type} : Except ε α → Bool
   | .ok _ => true
   | .error _ => false
 
@@ -136,7 +136,7 @@ def untilSpec (bs : List UInt8) (ff : Option IoKind) (acc : List UInt8) :
 
 theorem readUntil_spec (s : Sched) (acc : List UInt8) :
     (readUntil s acc).1 = (untilSpec s.pre s.firstFail acc).1 ∧
-    (isOk (readUntil s acc).1 = true →
+    (rdIsOk (readUntil s acc).1 = true →
       Sched.pre (readUntil s acc).2 = (untilSpec s.pre s.firstFail acc).2 ∧
       Sched.firstFail (readUntil s acc).2 = s.firstFail) := by
   induction s generalizing acc with
@@ -144,7 +144,7 @@ theorem readUntil_spec (s : Sched) (acc : List UInt8) :
   | cons e s ih =>
     cases e with
     | intr => simpa [readUntil, Sched.pre, Sched.firstFail] using ih acc
-    | fail k => simp [readUntil, untilSpec, Sched.pre, Sched.firstFail, splitAtLF, isOk]
+    | fail k => simp [readUntil, untilSpec, Sched.pre, Sched.firstFail, splitAtLF, rdIsOk]
     | chunk bs =>
       simp only [readUntil, Sched.pre, Sched.firstFail, untilSpec, splitAtLF_append]
       cases hs : splitAtLF bs with
@@ -175,15 +175,15 @@ def byteSpec (bs : List UInt8) (ff : Option IoKind) : Except IoKind UInt8 × Lis
 
 theorem readByte_spec (s : Sched) :
     (readByte s).1 = (byteSpec s.pre s.firstFail).1 ∧
-    (isOk (readByte s).1 = true →
+    (rdIsOk (readByte s).1 = true →
       Sched.pre (readByte s).2 = (byteSpec s.pre s.firstFail).2 ∧
       Sched.firstFail (readByte s).2 = s.firstFail) := by
   induction s with
-  | nil => simp [readByte, byteSpec, Sched.pre, Sched.firstFail, isOk]
+  | nil => simp [readByte, byteSpec, Sched.pre, Sched.firstFail, rdIsOk]
   | cons e s ih =>
     cases e with
     | intr => simpa [readByte, Sched.pre, Sched.firstFail] using ih
-    | fail k => simp [readByte, byteSpec, Sched.pre, Sched.firstFail, isOk]
+    | fail k => simp [readByte, byteSpec, Sched.pre, Sched.firstFail, rdIsOk]
     | chunk bs =>
       cases bs with
       | nil => simpa [readByte, Sched.pre, Sched.firstFail] using ih
@@ -204,7 +204,7 @@ def rawSpec (enc : Encoding) (bs : List UInt8) (ff : Option IoKind) :
 
 theorem readRaw_spec (enc : Encoding) (s : Sched) :
     (readRaw enc s).1 = (rawSpec enc s.pre s.firstFail).1 ∧
-    (isOk (readRaw enc s).1 = true →
+    (rdIsOk (readRaw enc s).1 = true →
       Sched.pre (readRaw enc s).2 = (rawSpec enc s.pre s.firstFail).2 ∧
       Sched.firstFail (readRaw enc s).2 = s.firstFail) := by
   obtain ⟨h1, h2⟩ := readUntil_spec s []
@@ -217,7 +217,7 @@ theorem readRaw_spec (enc : Encoding) (s : Sched) :
       simp only at h1 h2
       subst h1
       cases r with
-      | error k => simp [isOk]
+      | error k => simp [rdIsOk]
       | ok buf =>
         obtain ⟨hp, hf⟩ := h2 rfl
         simp only []
@@ -236,7 +236,7 @@ theorem readRaw_spec (enc : Encoding) (s : Sched) :
                 simp only at g1 g2
                 subst g1
                 cases rb with
-                | error k => simp [isOk]
+                | error k => simp [rdIsOk]
                 | ok b => exact ⟨rfl, fun _ => g2 rfl⟩
           · simp [hl, hp, hf]
 
@@ -439,7 +439,7 @@ theorem fromBom_append (bs x : List UInt8) (h : 3 ≤ bs.length) :
 
 theorem readBom_spec (s : Sched) (h : bomOk s = true) :
     (readBom s).1 = (bomSpec s.pre s.firstFail).1 ∧
-    (isOk (readBom s).1 = true →
+    (rdIsOk (readBom s).1 = true →
       Sched.pre (readBom s).2 = (bomSpec s.pre s.firstFail).2 ∧
       Sched.firstFail (readBom s).2 = s.firstFail) := by
   induction s with
@@ -447,7 +447,7 @@ theorem readBom_spec (s : Sched) (h : bomOk s = true) :
   | cons e s ih =>
     cases e with
     | intr => simpa [readBom, Sched.pre, Sched.firstFail] using ih (by simpa [bomOk] using h)
-    | fail k => simp [readBom, bomSpec, Sched.pre, Sched.firstFail, isOk]
+    | fail k => simp [readBom, bomSpec, Sched.pre, Sched.firstFail, rdIsOk]
     | chunk bs =>
       by_cases h0 : bs.length = 0
       · have : bs = [] := List.eq_nil_of_length_eq_zero h0
